@@ -18,6 +18,8 @@
 typedef struct dir_stack_t {
 	struct dir_stack_t *next;
 	sqfs_dir_iterator_t *dir;
+	sqfs_u64 dev;
+	sqfs_u64 inode;
 	char name[];
 } dir_stack_t;
 
@@ -146,6 +148,22 @@ static int next(sqfs_dir_iterator_t *base, sqfs_dir_entry_t **out)
 		const char *name = strrchr(ent->name, '/');
 		name = (name == NULL) ? ent->name : (name + 1);
 
+		/*
+		 * A directory that is its own ancestor (possible in a damaged
+		 * or malicious SquashFS image) would be descended into forever.
+		 */
+		for (dir_stack_t *sit = it->top; sit != NULL; sit = sit->next) {
+			/* sources that do not fill in an identity report 0/0 */
+			if (ent->dev == 0 && ent->inode == 0)
+				break;
+
+			if (sit->name[0] != '\0' && sit->dev == ent->dev &&
+			    sit->inode == ent->inode) {
+				ret = SQFS_ERROR_LINK_LOOP;
+				goto fail;
+			}
+		}
+
 		ret = it->top->dir->open_subdir(it->top->dir, &sub);
 		if (ret != 0)
 			goto fail;
@@ -160,6 +178,8 @@ static int next(sqfs_dir_iterator_t *base, sqfs_dir_entry_t **out)
 
 		strcpy(it->next_top->name, name);
 		it->next_top->dir = sub;
+		it->next_top->dev = ent->dev;
+		it->next_top->inode = ent->inode;
 	}
 
 	*out = ent;
